@@ -737,6 +737,9 @@ result_t DirectProtocolHandler::setState(BusState state, result_t result, bool f
 
   m_escape = 0;
   if (state == m_state) {
+    if (state == bs_ready) {
+      m_crc = 0;  // might have been updated by a lone escape symbol received after the SYN
+    }
     if (m_listener && result < RESULT_OK && state != bs_noSignal) {
       m_listener->notifyProtocolStatus(m_listenerState, result);
     }
